@@ -121,7 +121,7 @@ space (any amount), and the payload has no line starting with `--boundary` and i
 newline kind. Header lines may be folded, padded with white space, broken with any line
 break, come in any order and number. -/
 def RawOk (nl : Nl) (bnd : Bytes) (r : RawPart) : Prop :=
-  isBytesSpace (r.hdr.headD 32) = false ∧
+  isNl (r.hdr.headD 10) = false ∧
   searchBlank (r.hdr ++ (nl.bytes ++ nl.bytes)) = some (r.hdr.length, r.hdr.length + 2 * nl.len) ∧
   (headEvent r.hdr).toOption.isSome = true ∧
   (∀ x ∈ r.pad, isHws x = true) ∧
@@ -131,10 +131,10 @@ instance (nl : Nl) (bnd : Bytes) (r : RawPart) : Decidable (RawOk nl bnd r) := b
   unfold RawOk; infer_instance
 
 theorem rawOk_head {bnd : Bytes} {r : RawPart} (h : RawOk nl bnd r) :
-    ∃ x t, r.hdr = x :: t ∧ isBytesSpace x = false := by
+    ∃ x t, r.hdr = x :: t ∧ isNl x = false := by
   have h1 := h.1
   cases hh : r.hdr with
-  | nil => rw [hh] at h1; simp [isBytesSpace] at h1
+  | nil => rw [hh] at h1; simp [isNl] at h1
   | cons x t => rw [hh] at h1; exact ⟨x, t, rfl, by simpa using h1⟩
 
 theorem rawOk_event {bnd : Bytes} {r : RawPart} (h : RawOk nl bnd r) :
@@ -185,7 +185,7 @@ theorem rAfterDelim_tailOf {bnd : Bytes} (rs : List RawPart) (hv : ∀ q ∈ rs,
   | nil => exact Or.inl ⟨rfl, ep, rfl, rfl⟩
   | cons r rs =>
     rcases rawOk_head (hv r (by simp)) with ⟨x, t, hx, hsp⟩
-    have hx10 : x ≠ 10 := by intro e; subst e; simp [isBytesSpace] at hsp
+    have hx10 : x ≠ 10 := by intro e; subst e; simp [isNl] at hsp
     refine Or.inr ⟨rfl, r.pad, x, t ++ (nl.bytes ++ rDataOf nl bnd ep r rs), (hv r (by simp)).2.2.2.1, hx10, ?_, ?_⟩
     · simp only [rTailOf, hx, List.cons_append]
     · simp only [rAfterOf, hx, List.cons_append]
